@@ -36,7 +36,8 @@ CONSTANTS Tables,      \* set of descriptors (cfg records) to start from
           Prefix,      \* input bytes delivered first (fixed), before the free choice starts
           MaxHavoc,    \* budget of HavocScratch steps (C20)
           KeepRec,     \* BOOLEAN: keep the last record in mon.last (simulation export only; FALSE for model checking)
-          NestedTrigs  \* set of <<c, t>>: events a handler may trigger from inside its invocation (cat_trigger_unsolicited_event called in a handler)
+          NestedTrigs, \* set of <<c, t>>: events a handler may trigger from inside its invocation (cat_trigger_unsolicited_event called in a handler)
+          EvMayHold    \* BOOLEAN: event handlers may return HOLD (outside the supported domain, DESIGN section 5; informational configuration only)
 
 VARIABLES S, mem, cfg, mon, nbytes, nlines, ntrig, nhx, nfail, ntog, lastRet, nhav
 
@@ -67,7 +68,7 @@ Candidates(mis) ==
               ret |-> r, data2 |-> <<>>, size2 |-> 0, in |-> i] : r \in Codes, i \in InsOf}
          ELSE {[k |-> "cmd", kind |-> mis.exp.kind, c |-> mis.exp.c, fsm |-> mis.exp.fsm, data |-> mis.exp.data, size |-> mis.exp.size, aux |-> mis.exp.aux,
                 ret |-> r, data2 |-> d, size2 |-> Len(d), in |-> i]
-                 : r \in (IF mis.exp.fsm = "ev" THEN Codes \ {RET_HOLD} ELSE Codes), d \in EditsOf(mis.exp.data), i \in InsOf}
+                 : r \in (IF mis.exp.fsm = "ev" /\ ~EvMayHold THEN Codes \ {RET_HOLD} ELSE Codes), d \in EditsOf(mis.exp.data), i \in InsOf}
     [] mis.what = "vr" -> {[k |-> "vr", c |-> mis.exp[1], v |-> mis.exp[2], r |-> r, in |-> <<>>] : r \in VarRets}
     [] mis.what = "vw" -> {[k |-> "vw", c |-> mis.exp[1], v |-> mis.exp[2], ws |-> mis.exp[3], r |-> r, in |-> <<>>] : r \in VarRets}
     [] mis.what = "lock" -> {[k |-> "lock", r |-> r, n |-> 0, clean |-> TRUE] : r \in (IF nfail < MaxLockFail THEN LockRets ELSE {0})}
